@@ -81,10 +81,10 @@ def file_truth(text):
         CA.append(np.array([same[0]["x"], same[0]["y"], same[0]["z"]]) if same else None)
     dist = {(i, j): float(np.linalg.norm(P[i] - P[j])) for i in range(len(P)) for j in range(i)}
     partners = {i: [j for j in range(len(P)) if j != i and dist[(max(i, j), min(i, j))] < LIMIT] for i in range(len(P))}
-    return P, CA, dist, partners
+    return P, CA, dist, partners, [a["resn"] for _, a in sgs]
 
 
-def judge(res, r, ff, P, CA, dist, partners, wit):
+def judge(res, r, ff, P, CA, dist, partners, wit, names):
     """Oracle on the returned biomolecule and the PQR lines; -> {file SG index: residue} or None."""
     # map file SG order -> residues of the biomolecule by coordinates
     cys = []
@@ -133,6 +133,8 @@ def judge(res, r, ff, P, CA, dist, partners, wit):
             if problems:
                 res.violate("bridge/not-detected-or-asymmetric", f"SG-SG = {dist[(max(i, ps[0]), min(i, ps[0]))]:.4f} < "
                             f"2.5 but {residue}: " + "; ".join(problems), **w)
+        elif names[i] != "CYS":
+            res.count("free_cysteines_entered_as_CYX_or_CYM_not_judged")
         else:
             res.count("free_pairs_checked")
             problems = []
@@ -170,12 +172,16 @@ def run_case(spec):
     def seq(pos):
         n = rng.randint(3, 5)
         s = [rng.choice(pool) for _ in range(n)]
-        s[{"N": 0, "I": n // 2, "C": n - 1}[pos]] = "CYS"
+        # the cysteine may be entered under its state names (bridged CYX, thiolate CYM) - accepted input forms
+        s[{"N": 0, "I": n // 2, "C": n - 1}[pos]] = rng.choice(["CYS"] * 5 + ["CYX", "CYM"])
         return s
+
+    def cpos(s):
+        return next(i for i, x in enumerate(s) if x in ("CYS", "CYX", "CYM"))
 
     sa, sb = seq(posA), seq(posB)
     pepA, pepB = S.peptide(sa, rng), S.peptide(sb, rng)
-    place(pepA, sa.index("CYS"), pepB, sb.index("CYS"), d, rng)
+    place(pepA, cpos(sa), pepB, cpos(sb), d, rng)
     decoy = rng.choice(["none", "none", "outside", "inside"])
     chains = [pepA, pepB]
     if decoy != "none":
@@ -184,7 +190,7 @@ def run_case(spec):
         dd = 2.62 if decoy == "outside" else 2.3
         # approach cysteine A from the side opposite to B as far as possible
         tmp = [dict(r, atoms=list(r["atoms"])) for r in pepA]
-        place(tmp, sa.index("CYS"), pepC, 1, dd, rng)
+        place(tmp, cpos(sa), pepC, 1, dd, rng)
         # move C to the side: rotate about SG_A->centroid axis is not needed; keep if far from B
         ptsB = np.array([x for r in pepB for _, x in r["atoms"]])
         ptsC = np.array([x for r in pepC for _, x in r["atoms"]])
@@ -202,7 +208,7 @@ def run_case(spec):
         entries.append({"id": cid, "start": start, "residues": ch})
     items, truth = S.assemble(entries)
     text = pdbfmt.to_text(items)
-    P, CA, dist, partners = file_truth(text)
+    P, CA, dist, partners, names = file_truth(text)
     if any(abs(v - LIMIT) < 1e-6 for v in dist.values()) or any(c is None for c in CA):
         return res
     ff = common.FFS[spec["seed"] % 6]
@@ -222,7 +228,7 @@ def run_case(spec):
     if dcls == "near" or order == "BA" or scheme in ("same_ter", "blank", "same_number") or decoy != "none":
         res.nt("inside" if main < LIMIT else "outside", round(abs(main - LIMIT), 3) if dcls == "near" else dcls, scheme,
                order, posA + posB, decoy, ff)
-    bykey = judge(res, r, ff, P, CA, dist, partners, wit)
+    bykey = judge(res, r, ff, P, CA, dist, partners, dict(wit, input_names=names), names)
     if bykey is None:
         return res
     res.sample = {"d": round(main, 4), "scheme": scheme, "order": order, "decoy": decoy, "opts": opts,
